@@ -119,6 +119,10 @@ def gen_spec(seed, avoid=(), missing=False):
         kind = ch.weighted([(3, 'lua'), (3, 'p8'), (2, 'p8png')])
         d = ch.weighted(list(DIRS))
         stem = ch.pick(STEMS)
+        if targets and targets[-1]['kind'] != 'lua' and kind != 'lua' and kind != targets[-1]['kind'] and ch.chance(90):
+            # a cart and its exported twin: same directory, same stem, .p8 next to .p8.png
+            prev = targets[-1]['path']
+            d, stem = prev[:prev.rfind('/') + 1], prev[prev.rfind('/') + 1:].split('.p8')[0]
         path = d + stem + EXT[kind]
         if path in used:
             path = d + stem + str(i) + EXT[kind]
@@ -454,6 +458,12 @@ def labels_for(spec):
     labs = ['includes_%d' % min(len(incs), 4)]
     idxs = [i for (i, _p, _s, _t) in incs]
     seen = set()
+    stems = {}
+    for (i, path, sel, t) in incs:
+        if t is not None and t['kind'] != 'lua':
+            stems.setdefault(path.split('.p8')[0], set()).add(t['kind'])
+    if any(len(k) == 2 for k in stems.values()):
+        labs.append('p8_and_png_twins_both_included')
     for (i, path, sel, t) in incs:
         if '/' in path:
             labs.append('subdir')
@@ -561,7 +571,7 @@ def replay(case):
 
 
 REQUIRED = ('includes_0', 'includes_1', 'includes_2', 'includes_3', 'includes_4', 'kind_lua', 'kind_p8',
-            'kind_p8png', 'tab_selector', 'tab_beyond_last', 'tab_last', 'adjacent_includes', 'include_first_line',
+            'kind_p8png', 'p8_and_png_twins_both_included', 'p8png_compressed_no_final_newline', 'tab_empty', 'tab_selector', 'tab_beyond_last', 'tab_last', 'adjacent_includes', 'include_first_line',
             'include_last_line', 'include_middle', 'target_no_final_newline',
             'line_follows_target_without_final_newline', 'nested_include_verbatim', 'subdir', 'same_target_twice',
             'include_line_padded', 'name_with_dash_dot_digit', 'crlf_target', 'missing_target')
